@@ -103,6 +103,31 @@ def gen_history(r, nbuild, ncur):
     return ops
 
 
+def gen_seek_history(r, nbuild, nrounds):
+    """one long-lived cursor: runs of deletes through the cursor (emptying nodes), puts through the database that create
+    and recycle nodes, and EQ/GE seeks in between - positions are re-established by every seek, so the exact oracle applies"""
+    fl = r.choice(G.FLAG_COMBOS)
+    ops = ["open %d 1 0" % r.randrange(2), "db 1 %d" % fl]
+    pool = G.make_pool(r, fl, r.choice([60, 150, 400]))
+    for _ in range(nbuild):
+        k, c = r.choice(pool)
+        ops.append("put 1 %s %d %s 0 %d" % (G.H(k), c, G.H(G.gen_value(r, big=False)), G.gen_level(r)))
+    ops.append("cur 0 open 1 bf")
+    for _ in range(nrounds):
+        k, c = r.choice(pool)
+        ops.append("cur 0 tokey ge %s %d" % (G.H(k), c))
+        for _ in range(r.choice([1, 3, 40, 90])):
+            ops += ["cur 0 del", "cur 0 to next", "cur 0 key"]
+        for _ in range(r.choice([5, 40, 120])):
+            k, c = r.choice(pool)
+            ops.append("put 1 %s %d %s 0 %d" % (G.H(k), c, G.H(G.gen_value(r, big=False)), G.gen_level(r)))
+        for _ in range(r.choice([5, 30])):
+            k, c = near_key(r, fl, pool)
+            ops += ["cur 0 tokey %s %s %d" % (r.choice(["eq", "ge"]), G.H(k), c), "cur 0 key"]
+    ops += ["cur 0 close", "dump 1", "close"]
+    return ops
+
+
 def gen_scan(r, nbuild):
     """full forward and backward scans: the first sentence of the property"""
     fl = r.choice(G.FLAG_COMBOS)
@@ -126,7 +151,12 @@ def gen_scan(r, nbuild):
 
 
 def make_case(r, kind):
-    ops = gen_scan(r, r.choice([0, 10, 150, 500])) if kind == "scan" else gen_history(r, r.choice([0, 5, 60, 300, 700]), r.choice([60, 200]))
+    if kind == "scan":
+        ops = gen_scan(r, r.choice([0, 10, 150, 500]))
+    elif kind == "seek":
+        ops = gen_seek_history(r, r.choice([100, 400]), r.choice([2, 4]))
+    else:
+        ops = gen_history(r, r.choice([0, 5, 60, 300, 700]), r.choice([60, 200]))
     ref = G.Ref()
     exp = [ref.apply(l) for l in ops]
 
@@ -140,7 +170,7 @@ def make_case(r, kind):
 
 def explore(ctx, h, drv, n, label):
     r = C.Rng(ctx.seed, "c02/" + label)
-    cases = [make_case(r, "scan" if i % 4 == 0 else "cursor") for i in range(n)]
+    cases = [make_case(r, "scan" if i % 4 == 0 else "seek" if i % 4 == 1 else "cursor") for i in range(n)]
     for c in cases[:2]:
         ctx.sample(dict(kind=c.kind, last_ops=c.ops[-12:], n_ops=len(c.ops)))
     for c in cases:
